@@ -628,8 +628,8 @@ def run(chk, ctx):
     for name in configs:
         run_config(chk, ctx, name)
     canary(chk)
-    chk.floor("functions_receiving_the_message", 5)
+    chk.floor("functions_receiving_the_message", 4)
     chk.floor("mutable_splits", 1)
     chk.floor("message_write_sites", 1)
     chk.floor("channel_drains", 1)
-    chk.floor("panic_sites", 250)
+    chk.floor("panic_sites", 180)
